@@ -63,7 +63,8 @@ def pythia_call(kind):
         run.event('pythia', kind)
         if run.choose(z3.Bool('pythia_raises!%d' % run.cursor)):
             run.pythia_raised = True
-            raise PyRaise(ExcObj(E.AnyExc('pythia'), {'args': ()}))
+            run.pythia_exc = E.AnyExc('pythia')
+            raise PyRaise(ExcObj(run.pythia_exc, {'args': ()}))
         fq = 'vizier.SuggestDecision' if kind == 'Suggest' else 'vizier.EarlyStopDecisions'
         return S.symbolic_msg(fq, 'pythia_%s_result' % kind)
     return call
